@@ -4,6 +4,8 @@ package jlib
 
 import (
 	"math"
+	"reflect"
+	"strconv"
 
 	"github.com/blues/jsonata-go/jtypes"
 )
@@ -68,4 +70,64 @@ func VerifH_C18_SqrtPower() {
 	if perr == nil {
 		verifAssert(!math.IsNaN(p) && !math.IsInf(p, 0), "power-finite-or-error")
 	}
+}
+
+// c18RefNumber is the statement's grammar: optional minus sign, digits, optional fraction, optional
+// exponent.
+func c18RefNumber(s string) bool {
+	i := 0
+	if i < len(s) && s[i] == '-' {
+		i++
+	}
+	digits := func() bool {
+		j := i
+		for i < len(s) && s[i] >= '0' && s[i] <= '9' {
+			i++
+		}
+		return i > j
+	}
+	if !digits() {
+		return false
+	}
+	if i < len(s) && s[i] == '.' {
+		i++
+		if !digits() {
+			return false
+		}
+	}
+	if i < len(s) && (s[i] == 'e' || s[i] == 'E') {
+		i++
+		if i < len(s) && (s[i] == '+' || s[i] == '-') {
+			i++
+		}
+		if !digits() {
+			return false
+		}
+	}
+	return i == len(s)
+}
+
+// VerifH_C18_NumberGrammar: $number accepts exactly the strings of the grammar (and, among those,
+// exactly the ones whose value is in range), for every string of <= N characters over a number-like
+// alphabet. The grammar test in the implementation is a regular expression run by the real regexp
+// engine, so the strings are enumerated by forking rather than left symbolic.
+func VerifH_C18_NumberGrammar() {
+	alphabet := []byte{'-', '+', '7', '0', '.', 'e', 'E', ' ', '9'}
+	n := verifChoose(verifParam("N", 4) + 1)
+	b := make([]byte, n)
+	for i := range b {
+		b[i] = alphabet[verifChoose(len(alphabet))]
+	}
+	s := string(b)
+	got, err := Number(StringNumberBool(reflect.ValueOf(s)))
+	want, perr := strconv.ParseFloat(s, 64)
+	if !c18RefNumber(s) {
+		verifAssert(err != nil, "number-rejects-strings-outside-the-grammar")
+		return
+	}
+	if perr != nil {
+		verifAssert(err != nil, "number-out-of-range-is-an-error")
+		return
+	}
+	verifAssert(err == nil && got == want, "number-accepts-grammar-strings-with-their-value")
 }
